@@ -1,5 +1,415 @@
 import Driver.Util
+import KavaVerif.Model.Authz
+/-!
+  C16 driver.  One case per (handler, signer): the guard-relevant pre-state the harness read from the real
+  app, the signer, `=>`, the result class of the real msg server, whether a digest of every module store
+  changed, the registered error, handler specific observations, and the user parties whose records changed.
+
+  For each case the handler (1) runs the Lean model (Model/Authz.lean, over party indices) on the observed
+  pre-state and compares result class, outputs, the guard's registered error and the set of touched parties
+  (MISMATCH), and (2) evaluates the property predicate on the implementation's own observation (PREDFAIL):
+  only a principal may succeed; a message that does not succeed changes nothing; a record-keyed handler
+  touches only the signer's records and pays out at most what is recorded.
+
+  line: cmd kind signer pre… "=>" cls changed err post… changedUsers
+-/
 namespace Drv.C16
+open KV.Authz KV.Gen.C16
+
+def nat9 (s : String) : Nat :=
+  match int? s with
+  | some i => if i < 0 then 9999 else i.toNat
+  | none => 9999
+
+def natList (s : String) (sep : String := ",") : List Nat := (strs s sep).map nat9
+
+structure Obs where
+  kind : String
+  signer : Nat
+  pre : List String
+  cls : String
+  changed : Bool
+  err : String
+  post : List String
+  chg : List Nat
+
+def splitArrow : List String → List String → Option (List String × List String)
+  | _, [] => none
+  | acc, x :: xs => if x == "=>" then some (acc.reverse, xs) else splitArrow (x :: acc) xs
+
+def parse (fs : List String) : Option Obs :=
+  match fs with
+  | kind :: signer :: rest =>
+    match splitArrow [] rest with
+    | some (pre, cls :: changed :: err :: tail) =>
+      match tail.reverse with
+      | chg :: postRev =>
+        some { kind := kind, signer := nat9 signer, pre := pre, cls := cls, changed := changed == "1", err := err,
+               post := postRev.reverse, chg := natList chg }
+      | [] => none
+    | _ => none
+  | _ => none
+
+def g (l : List String) (i : Nat) : String := l.getD i ""
+def gi (l : List String) (i : Nat) : Int := intD (g l i)
+def gb (l : List String) (i : Nat) : Bool := g l i == "1"
+
+/-- "a failed message changes nothing" on the implementation's own observation -/
+def failedUnchanged (o : Obs) : String :=
+  if o.cls != "ok" && o.changed then predfail "C16_failed_changes_nothing" s!"{o.kind} state-changed-by-failed-message"
+  else "ok"
+
+/-- when the model says the gating guard is what rejects, the implementation's registered error must be the
+    guard's (so the rejection is the guard's doing, not an incidental later check) -/
+def guardErr (guardRejects : Bool) (gd : Guard) (o : Obs) : String :=
+  if guardRejects && gd.rejectCode != "" && o.cls == "err" && o.err != gd.rejectCode then
+    mismatch "guard-error" gd.rejectCode o.err
+  else "ok"
+
+/-- a predicate verdict (a failing input on the implementation) takes precedence over a model mismatch -/
+def pick (l : List String) : String :=
+  match l.find? (fun r => r.startsWith "PREDFAIL") with
+  | some r => r
+  | none => allOk l
+
+def only (name : String) (o : Obs) (isPrincipal : Bool) (tag : String := "non-principal-succeeded") : String :=
+  if o.cls == "ok" && !isPrincipal then predfail name s!"{o.kind} {tag}" else "ok"
+
+/-! ### pricefeed -/
+
+def parseMarkets (s : String) : List (String × List Nat) :=
+  (strs s ";").map fun m =>
+    match m.splitOn "=" with
+    | [id, os] => (id, natList os ".")
+    | _ => (m, [])
+
+def pricefeedPost (o : Obs) : String :=
+  let ms := parseMarkets (g o.pre 0)
+  let ids := ms.map (·.1)
+  let mid := ids.idxOf (g o.pre 1)
+  let s : PF Nat := { markets := (ms.zipIdx).map (fun (m, i) => ⟨i, m.2⟩), raw := fun _ _ => none, now := 0 }
+  let res := postPrice s o.signer mid 1 (gi o.pre 2)
+  let oracles := ((ms.find? (fun m => m.1 == g o.pre 1)).map (·.2)).getD []
+  pick [expectEq "result" res.cls o.cls,
+         expectEq "stored" (showBool res.isOk) (g o.post 0),
+         guardErr (!passes gPostPrice (getOracle s mid o.signer)) gGetOracle o,
+         only "C16_pricefeed_post" o (oracles.contains o.signer) "non-oracle-succeeded",
+         failedUnchanged o]
+
+/-! ### issuance -/
+
+def issState (o : Obs) : Iss Nat :=
+  let p := o.pre
+  let target := nat9 (g p 8)
+  let a : Asset Nat := { denom := 0, owner := nat9 (g p 1), blocked := natList (g p 4), paused := gb p 2, blockable := gb p 3,
+                         rlActive := gb p 5, rlLimit := gi p 6 }
+  { assets := if gb p 0 then [a] else [],
+    curSupply := fun _ => if gi p 7 < 0 then none else some (gi p 7),
+    bal := fun _ x => if x = o.signer then gi p 13 else 0,
+    total := fun _ => 0,
+    isModAcc := fun x => x = target && gb p 9,
+    hasAcc := fun x => x = target && gb p 10,
+    bankBlocked := fun x => x = target && gb p 11 }
+
+def issuance (which : String) (o : Obs) : String :=
+  let p := o.pre
+  let s := issState o
+  let target := nat9 (g p 8)
+  let amt := gi p 12
+  let owner := nat9 (g p 1)
+  let found := gb p 0
+  let isOwner := found && o.signer == owner
+  let (res, gd, name, out) : Res (Iss Nat) × Guard × String × String :=
+    match which with
+    | "issue" =>
+      let r := issueTokens s o.signer target 0 amt
+      (r, gIssue, "C16_issuance_issue", toString (if r.isOk then amt else 0))
+    | "redeem" =>
+      let r := redeemTokens s o.signer 0 amt
+      (r, gRedeem, "C16_issuance_redeem", toString (if r.isOk then amt else 0))
+    | "block" =>
+      let r := blockAddress s o.signer 0 target
+      (r, gBlock, "C16_issuance_block", if r.isOk then "1" else "0")
+    | "unblock" =>
+      let r := unblockAddress s o.signer 0 target
+      (r, gUnblock, "C16_issuance_unblock", if r.isOk then "-1" else "0")
+    | _ =>
+      let r := setPauseStatus s o.signer 0 (gb p 14)
+      let paused' := match r with
+        | .ok s' => ((getAsset s' 0).map (·.paused)).getD false
+        | _ => gb p 2
+      (r, gPause, "C16_issuance_pause", showBool paused')
+  -- the guard is what rejects when the asset exists (and, for block/unblock, is blockable) and the signer is not the owner
+  let reachesGuard := found && (if which == "block" || which == "unblock" then gb p 3 else true) &&
+                      (if which == "issue" || which == "redeem" then decide (amt > 0) else true)
+  pick [expectEq "result" res.cls o.cls,
+         expectEq "effect" out (g o.post 0),
+         guardErr (reachesGuard && !isOwner) gd o,
+         only name o isOwner "non-owner-succeeded",
+         (if which == "issue" && o.cls == "ok" && gb p 2 then predfail name s!"{o.kind} paused-asset-issued" else "ok"),
+         (if which == "issue" && o.cls == "ok" && gb p 3 && (natList (g p 4)).contains target then
+            predfail name s!"{o.kind} blocked-receiver-issued" else "ok"),
+         failedUnchanged o]
+
+/-! ### bep3 -/
+
+def bep3Create (o : Obs) : String :=
+  let p := o.pre
+  let recv := nat9 (g p 0)
+  let deputy := nat9 (g p 1)
+  let dup : Swap Nat := { rnh := 1, sender := o.signer, senderOther := 0, recipient := recv, amount := 1, incoming := true,
+                          expire := 0, timestamp := 0 }
+  let s : B3 Nat := {
+    deputy := deputy, active := gb p 3, minAmt := gi p 4, maxAmt := gi p 5, fee := gi p 6,
+    minLock := (gi p 7).toNat, maxLock := (gi p 8).toNat, limit := gi p 9, timeLimited := gb p 10, timeLimit := gi p 11,
+    cur := gi p 12, incoming := gi p 13, outgoing := gi p 14, tlCur := gi p 15,
+    isMacc := fun x => x = recv && gb p 2, hasAcc := fun _ => true, bal := fun _ => gi p 20,
+    swaps := if gb p 16 then [dup] else [], now := 0, height := 0 }
+  let amt := gi p 17
+  let res := createSwap s 1 (gi p 18) (gi p 19).toNat o.signer recv 0 amt true
+  let (dir, incDelta) : String × Int := match res with
+    | .ok s' => ((match s'.swaps.head? with
+                  | some w => if w.incoming then "in" else "out"
+                  | none => "-"), s'.incoming - s.incoming)
+    | _ => ("-", 0)
+  let idir := g o.post 0
+  let isDeputy := o.signer == deputy
+  pick [expectEq "result" res.cls o.cls,
+         expectEq "direction" dir idir,
+         expectEq "incoming-supply" (toString incDelta) (g o.post 1),
+         guardErr (preChecks s 1 (gi p 18) o.signer recv 0 amt true && !isDeputy && recv != deputy) gBep3 o,
+         (if o.cls == "ok" && idir == "in" && !isDeputy then predfail "C16_bep3_direction" s!"{o.kind} incoming-from-non-deputy" else "ok"),
+         (if o.cls == "ok" && idir != "in" && isDeputy then predfail "C16_bep3_direction" s!"{o.kind} deputy-swap-not-incoming" else "ok"),
+         (if o.cls == "ok" && !isDeputy && recv != deputy then
+            predfail "C16_bep3_recipient_rules" s!"{o.kind} non-deputy-to-non-deputy" else "ok"),
+         (if o.cls == "ok" && !isDeputy && gi o.post 1 != 0 then
+            predfail "C16_bep3_recipient_rules" s!"{o.kind} incoming-supply-moved-by-non-deputy" else "ok"),
+         (if o.cls == "ok" && gb p 2 then predfail "C16_bep3_recipient_rules" s!"{o.kind} module-account-recipient" else "ok"),
+         failedUnchanged o]
+
+/-! ### committee, community -/
+
+def committeeSubmit (o : Obs) : String :=
+  let p := o.pre
+  let members := natList (g p 1)
+  let s : Com Nat := { committees := if gb p 0 then [⟨1, members, gb p 2, 10⟩] else [], proposals := [], votes := [],
+                       nextId := 1, now := 5 }
+  let res := submitProposal s o.signer 1 true true
+  let isM := members.contains o.signer
+  pick [expectEq "result" res.cls o.cls,
+         expectEq "stored" (showBool res.isOk) (g o.post 0),
+         only "C16_committee_submit" o isM "non-member-succeeded",
+         failedUnchanged o]
+
+def committeeVote (o : Obs) : String :=
+  let p := o.pre
+  let members := natList (g p 2)
+  let isMemberCom := gb p 3
+  let opt := (gi p 4).toNat
+  let s : Com Nat := { committees := [⟨1, members, isMemberCom, 10⟩],
+                       proposals := if gb p 0 then [⟨1, 1, if gb p 1 then 0 else 10⟩] else [],
+                       votes := [], nextId := 2, now := 5 }
+  let res := addVote s o.signer 1 opt
+  let isM := members.contains o.signer
+  pick [expectEq "result" res.cls o.cls,
+         (if res.isOk then expectEq "vote-stored" "1" (g o.post 0) else expectEq "vote-stored" (g o.post 1) (g o.post 0)),
+         only "C16_committee_vote" o (!isMemberCom || isM) "non-member-succeeded",
+         (if o.cls == "ok" && isMemberCom && opt != 1 then predfail "C16_committee_vote" s!"{o.kind} non-yes-vote-on-member-committee" else "ok"),
+         failedUnchanged o]
+
+def communityUpdate (o : Obs) : String :=
+  let p := o.pre
+  let authority := nat9 (g p 0)
+  let res := updateParams (⟨authority, 0⟩ : Comm Nat) o.signer 1 (gb p 1)
+  pick [expectEq "result" res.cls o.cls,
+         (if res.isOk then expectEq "params-set" "1" (g o.post 0) else "ok"),
+         only "C16_community_update" o (o.signer == authority) "non-authority-succeeded",
+         failedUnchanged o]
+
+/-! ### record-keyed handlers -/
+
+def users : List Nat := List.range 12
+
+def subsetOf (a b : List Nat) : Bool := a.all (fun x => b.contains x)
+
+/-- frame: every user party whose records changed is in `allowed` -/
+def frame (name : String) (o : Obs) (allowed : List Nat) : String :=
+  if o.cls != "ok" then "ok" else
+  match o.chg.find? (fun u => !allowed.contains u) with
+  | some u => predfail name s!"{o.kind} other-party-record-changed party={u}"
+  | none => "ok"
+
+def noRecord (name : String) (o : Obs) (has : Bool) : String :=
+  if o.cls == "ok" && !has then predfail name s!"{o.kind} no-record-succeeded" else "ok"
+
+def cdpEnv (ok : Bool) : CdpEnv Nat :=
+  { accrued := fun _ => 0, drawValid := fun _ _ => ok, ratioOk := fun _ _ _ => ok, collValid := fun _ _ => ok,
+    payValid := fun _ => ok }
+
+def cdpTouched (s s' : CdpSt Nat) : List Nat :=
+  users.filter fun u =>
+    (s'.cdp u 0).isSome != (s.cdp u 0).isSome || ((s'.cdp u 0).map (·.principal)) != ((s.cdp u 0).map (·.principal)) ||
+    ((s'.cdp u 0).map (·.collateral)) != ((s.cdp u 0).map (·.collateral)) ||
+    ((s'.cdp u 0).map (·.deps)) != ((s.cdp u 0).map (·.deps)) ||
+    s'.usdx u != s.usdx u || s'.coll 0 u != s.coll 0 u
+
+def cdpDrawRepay (repay : Bool) (o : Obs) : String :=
+  let p := o.pre
+  let has := gb p 0
+  let deps := natList (g p 1)
+  let amt := gi p 2
+  let implOk := o.cls == "ok"
+  let closed := repay && implOk && !(gb o.post 1)
+  -- a state in which the model closes the CDP exactly when the implementation did
+  let principal : Int := if repay then (if closed then 1 else amt + 1) else 100
+  let s : CdpSt Nat := {
+    cdp := fun ow t => if ow = o.signer ∧ t = 0 ∧ has then some ⟨1000, principal, 0, deps.map (fun d => (d, 1))⟩ else none,
+    usdx := fun _ => amt + 10, coll := fun _ _ => 0, totalPrincipal := fun _ => principal, debtFloor := 0 }
+  let e := cdpEnv implOk
+  let res := if repay then repayDebt e s o.signer 0 amt else drawDebt e s o.signer 0 amt
+  let name := if repay then "C16_cdp_repay" else "C16_cdp_draw"
+  let touched := match res with
+    | .ok s' => o.signer :: cdpTouched s s'
+    | _ => []
+  pick [expectEq "result" res.cls o.cls,
+         guardErr (!has) (if repay then gCdpRepay else gCdpDraw) o,
+         (if implOk && !subsetOf o.chg touched then mismatch "touched" (showInts (touched.map Int.ofNat)) (showInts (o.chg.map Int.ofNat)) else "ok"),
+         noRecord name o has,
+         frame name o (o.signer :: (if repay then deps else [])),
+         (if !repay && implOk && gi o.post 0 != amt then predfail name s!"{o.kind} drawn-amount-not-credited-to-signer" else "ok"),
+         failedUnchanged o]
+
+def cdpWithdraw (o : Obs) : String :=
+  let p := o.pre
+  let owner := nat9 (g p 0)
+  let cdpFound := gb p 1
+  let dep := gi p 2
+  let x := gi p 3
+  let implOk := o.cls == "ok"
+  let deps : List (Nat × Int) := (if dep ≥ 0 then [(o.signer, dep)] else []) ++ [(7777, 5)]
+  let s : CdpSt Nat := {
+    cdp := fun ow t => if ow = owner ∧ t = 0 ∧ cdpFound then some ⟨1000000000000000000, 10, 0, deps⟩ else none,
+    usdx := fun _ => 0, coll := fun _ _ => 0, totalPrincipal := fun _ => 10, debtFloor := 0 }
+  let res := withdrawCollateral (cdpEnv implOk) s owner o.signer 0 x
+  let touched := match res with
+    | .ok s' => o.signer :: cdpTouched s s'
+    | _ => []
+  let guardRejects := cdpFound && dep < 0
+  pick [expectEq "result" res.cls o.cls,
+         expectEq "paid" (toString (if res.isOk then x else 0)) (g o.post 0),
+         guardErr guardRejects gCdpWdDep o,
+         guardErr (cdpFound && dep ≥ 0 && x > dep) gCdpWdCap o,
+         (if implOk && !subsetOf o.chg touched then mismatch "touched" (showInts (touched.map Int.ofNat)) (showInts (o.chg.map Int.ofNat)) else "ok"),
+         noRecord "C16_cdp_withdraw" o (dep ≥ 0),
+         (if implOk && gi o.post 0 > dep then predfail "C16_cdp_withdraw" s!"{o.kind} paid-more-than-recorded" else "ok"),
+         frame "C16_cdp_withdraw" o [o.signer, owner],
+         failedUnchanged o]
+
+def mkCoins (xs : List Int) : Coins := ((xs.zipIdx).map (fun (x, i) => (i, x))).filter (fun c => c.2 != 0)
+def mkReq (xs : List Int) : Coins := (xs.zipIdx).map (fun (x, i) => (i, x))
+
+def coinsWithdraw (hard : Bool) (o : Obs) : String :=
+  let p := o.pre
+  let has := gb p 0
+  let recL := (ints? (g p 1)).getD []
+  let reqL := (ints? (g p 2)).getD []
+  let paidL := (ints? (g o.post 0)).getD []
+  let implOk := o.cls == "ok"
+  let rec_ := mkCoins recL
+  let req := mkReq reqL
+  let name := if hard then "C16_hard_withdraw" else "C16_savings_withdraw"
+  let (cls, paid, touchedOk) : String × List Int × Bool :=
+    if hard then
+      let s : Hard Nat := { dep := fun a => if a = o.signer ∧ has then some rec_ else none, bor := fun _ => none,
+                            supplied := fun _ => 0, modBal := fun _ => 10 ^ 40, bal := fun _ _ => 0, bankBlocked := fun _ => false }
+      let e : HardEnv Nat := { syncDep := fun _ c => c, syncBor := fun _ c => c, ltvOk := fun _ _ => implOk }
+      match hardWithdraw e s o.signer req with
+      | .ok s' => ("ok", req.map (fun c => s'.bal c.1 o.signer), users.all (fun u => u == o.signer || (s'.dep u).isSome == (s.dep u).isSome))
+      | .err => ("err", reqL.map (fun _ => 0), true)
+      | .panic => ("panic", [], true)
+    else
+      let s : Sav Nat := { dep := fun a => if a = o.signer ∧ has then some rec_ else none, modBal := fun _ => 10 ^ 40,
+                           bal := fun _ _ => 0, bankBlocked := fun _ => false }
+      match savWithdraw s o.signer req with
+      | .ok s' => ("ok", req.map (fun c => s'.bal c.1 o.signer), true)
+      | .err => ("err", reqL.map (fun _ => 0), true)
+      | .panic => ("panic", [], true)
+  -- savings has no validation after the cap: the model predicts the class outright; hard's LTV check is a parameter
+  let clsCmp := if hard && !implOk then "ok" else expectEq "result" cls o.cls
+  pick [clsCmp,
+         (if implOk then expectEq "paid" (showInts paid) (showInts paidL) else "ok"),
+         (if touchedOk then "ok" else mismatch "touched" "signer" "other"),
+         guardErr (!has) (if hard then gHard else gSavings) o,
+         noRecord name o has,
+         (if implOk && ((paidL.zip recL).any (fun (a, b) => a > b) || (paidL.zip reqL).any (fun (a, b) => a > b)) then
+            predfail name s!"{o.kind} paid-more-than-recorded" else "ok"),
+         frame name o [o.signer],
+         failedUnchanged o]
+
+def swapWd (o : Obs) : String :=
+  let p := o.pre
+  let owned := gi p 0
+  let sh := gi p 1
+  let s : SwapSt Nat := { shares := fun a _ => if a = o.signer ∧ owned ≥ 0 then some owned else none,
+                          pool := fun _ => some ⟨gi p 2, gi p 3, gi p 4⟩, balA := fun _ _ => 0, balB := fun _ _ => 0 }
+  let res := swapWithdraw s o.signer 0 sh 1 1
+  let (pa, pb) : Int × Int := match res with
+    | .ok s' => (s'.balA 0 o.signer, s'.balB 0 o.signer)
+    | _ => (0, 0)
+  pick [expectEq "result" res.cls o.cls,
+         expectEq "paidA" (toString pa) (g o.post 0), expectEq "paidB" (toString pb) (g o.post 1),
+         guardErr (owned < 0) gSwap o,
+         guardErr (owned ≥ 0 && sh > owned) gSwapCap o,
+         noRecord "C16_swap_withdraw" o (owned ≥ 0),
+         (if o.cls == "ok" && sh > owned then predfail "C16_swap_withdraw" s!"{o.kind} more-shares-than-owned" else "ok"),
+         frame "C16_swap_withdraw" o [o.signer],
+         failedUnchanged o]
+
+def earnWd (o : Obs) : String :=
+  let p := o.pre
+  let has := gb p 0
+  let cur := gi p 1
+  let wsh := gi p 2
+  let want := gi p 3
+  let implOk := o.cls == "ok"
+  let s : Earn Nat := { shares := fun a => if a = o.signer ∧ has then some (mkCoins [cur]) else none,
+                        totalShares := fun _ => cur, bal := fun _ _ => 0, bankBlocked := fun _ => false }
+  let e : EarnEnv Nat := { vaultOk := fun _ _ => true, toShares := fun _ _ => wsh, toAssets := fun _ _ => gi o.post 0,
+                           valueOf := fun _ _ => if implOk then 10 ^ 40 else -1, stratOk := fun _ _ => implOk,
+                           isDust := fun _ _ => false }
+  let res := earnWithdraw e s o.signer 0 want 0
+  pick [expectEq "result" res.cls o.cls,
+         guardErr (!has) gEarn o,
+         guardErr (has && cur < wsh) gEarnCap o,
+         noRecord "C16_earn_withdraw" o has,
+         (if implOk && cur < wsh then predfail "C16_earn_withdraw" s!"{o.kind} more-shares-than-owned" else "ok"),
+         (if implOk && gi o.post 0 > want then predfail "C16_earn_withdraw" s!"{o.kind} paid-more-than-asked" else "ok"),
+         frame "C16_earn_withdraw" o [o.signer],
+         failedUnchanged o]
+
+def wrap (f : Obs → String) : Handler := fun fs =>
+  match parse fs with
+  | some o => f o
+  | none => badInput "c16 fields"
+
 /-- handlers of property C16: (command name, handler) -/
-def handlers : List (String × Handler) := []
+def handlers : List (String × Handler) := [
+  ("c16.pricefeed.post", wrap pricefeedPost),
+  ("c16.issuance.issue", wrap (issuance "issue")),
+  ("c16.issuance.redeem", wrap (issuance "redeem")),
+  ("c16.issuance.block", wrap (issuance "block")),
+  ("c16.issuance.unblock", wrap (issuance "unblock")),
+  ("c16.issuance.pause", wrap (issuance "pause")),
+  ("c16.bep3.create", wrap bep3Create),
+  ("c16.committee.submit", wrap committeeSubmit),
+  ("c16.committee.vote", wrap committeeVote),
+  ("c16.community.update", wrap communityUpdate),
+  ("c16.cdp.draw", wrap (cdpDrawRepay false)),
+  ("c16.cdp.repay", wrap (cdpDrawRepay true)),
+  ("c16.cdp.withdraw", wrap cdpWithdraw),
+  ("c16.hard.withdraw", wrap (coinsWithdraw true)),
+  ("c16.savings.withdraw", wrap (coinsWithdraw false)),
+  ("c16.swap.withdraw", wrap swapWd),
+  ("c16.earn.withdraw", wrap earnWd)
+]
 end Drv.C16
